@@ -344,8 +344,10 @@ func CompileWarrior(r io.Reader, config SimulatorConfig) (WarriorData, error) {
 		} else {
 			break
 		}
+		// every pass expands a single block (the first outermost one), so
+		// this bounds the number of block instances, not the nesting depth
 		depth++
-		if depth > 12 {
+		if depth > 1000 {
 			return WarriorData{}, fmt.Errorf("for loop depth exceeded")
 		}
 	}
